@@ -356,6 +356,39 @@ static void do_cfgx(int depth)
     ABT_finalize();
 }
 
+/* several settings at once, through ABTD_env_init(): some limits depend on other settings
+ *   line: six fields  THREAD_STACKSIZE MEM_STACK_PAGE_SIZE MEM_PAGE_SIZE MEM_MAX_NUM_STACKS MEM_MAX_NUM_DESCS HUGE_PAGE_SIZE
+ *   each a decimal number or "-" (unset) */
+static void do_envg(FILE *f)
+{
+    static const char *N[6] = { "ABT_THREAD_STACKSIZE", "ABT_MEM_STACK_PAGE_SIZE", "ABT_MEM_PAGE_SIZE",
+                                "ABT_MEM_MAX_NUM_STACKS", "ABT_MEM_MAX_NUM_DESCS", "ABT_HUGE_PAGE_SIZE" };
+    char line[512], w[6][64];
+    setenv("ABT_SET_AFFINITY", "0", 1);
+    while (fgets(line, sizeof line, f)) {
+        if (sscanf(line, "%63s %63s %63s %63s %63s %63s", w[0], w[1], w[2], w[3], w[4], w[5]) != 6)
+            continue;
+        long in[6];
+        for (int i = 0; i < 6; i++) {
+            if (!strcmp(w[i], "-")) {
+                unsetenv(N[i]);
+                in[i] = -1;
+            } else {
+                setenv(N[i], w[i], 1);
+                in[i] = atol(w[i]);
+            }
+        }
+        static ABTI_global g;
+        memset(&g, 0, sizeof g);
+        ABTD_env_init(&g);
+        EV("\"e\":\"EnvG\",\"in\":[%ld,%ld,%ld,%ld,%ld,%ld],\"ts\":%lu,\"sp\":%lu,\"pg\":%lu,\"ms\":%lu,\"md\":%lu,\"hp\":%lu", in[0], in[1], in[2],
+           in[3], in[4], in[5], (unsigned long)g.thread_stacksize, (unsigned long)g.mem_sp_size, (unsigned long)g.mem_page_size,
+           (unsigned long)g.mem_max_stacks, (unsigned long)g.mem_max_descs, (unsigned long)g.huge_page_size);
+        for (int i = 0; i < 6; i++)
+            unsetenv(N[i]);
+    }
+}
+
 int main(int argc, char **argv)
 {
     if (argc < 3) {
@@ -377,6 +410,8 @@ int main(int argc, char **argv)
             do_aff(f);
         else if (!strcmp(argv[1], "env"))
             do_env(f);
+        else if (!strcmp(argv[1], "envg"))
+            do_envg(f);
         fclose(f);
     }
     abtv_flush();
